@@ -808,6 +808,8 @@ impl FileStateMachine {
             .await?;
 
         // Batch serialize into a single buffer — eliminates per-entry async yield overhead.
+        #[cfg(d_engine_verif)]
+        d_engine_core::verif::point("fsm_data:after_truncate", None, 0, 0);
         // Mirrors append_to_wal's approach for consistent I/O pattern.
         let estimated: usize =
             data_copy.iter().map(|(k, (v, _))| 8 + k.len() + 8 + v.len() + 8).sum();
@@ -823,6 +825,8 @@ impl FileStateMachine {
 
         file.write_all(&buf).await?;
         file.flush().await?;
+        #[cfg(d_engine_verif)]
+        d_engine_core::verif::point("fsm_data:after_write", None, 0, 0);
 
         Ok(())
     }
@@ -854,6 +858,8 @@ impl FileStateMachine {
             .truncate(true)
             .open(metadata_path)
             .await?;
+        #[cfg(d_engine_verif)]
+        d_engine_core::verif::point("fsm_meta:after_truncate", None, 0, 0);
 
         let index = self.last_applied_index.load(Ordering::SeqCst);
         let term = self.last_applied_term.load(Ordering::SeqCst);
@@ -920,6 +926,8 @@ impl FileStateMachine {
         self.persist_data_async().await?;
         self.persist_metadata_async().await?;
         // The WAL is the only durable copy of TTLs registered since the last graceful stop.
+        #[cfg(d_engine_verif)]
+        d_engine_core::verif::point("fsm_ckpt:after_meta", None, 0, 0);
         if let Some(ref lease) = self.lease {
             let ttl_path = self.data_dir.join("ttl_state.bin");
             tokio::fs::write(&ttl_path, lease.to_snapshot()).await?;
@@ -927,6 +935,8 @@ impl FileStateMachine {
         self.clear_wal_async().await?;
 
         self.wal_entries_since_checkpoint.store(0, Ordering::Relaxed);
+        #[cfg(d_engine_verif)]
+        d_engine_core::verif::point("fsm_ckpt:after_clear", None, 0, 0);
         if let Ok(mut last) = self.last_checkpoint.lock() {
             *last = Instant::now();
         }
@@ -1236,6 +1246,8 @@ impl StateMachine for FileStateMachine {
             file.write_all(&wal_buf).await?;
             file.flush().await?;
         }
+        #[cfg(d_engine_verif)]
+        d_engine_core::verif::point("fsm_apply:after_wal", None, 0, 0);
 
         // PHASE 3: Fast in-memory updates with minimal lock time
         // (CAS uses pre-computed outcomes — no re-evaluation under write lock)
@@ -1299,6 +1311,8 @@ impl StateMachine for FileStateMachine {
                 }
             }
         } // Lock released immediately - no awaits inside!
+        #[cfg(d_engine_verif)]
+        d_engine_core::verif::point("fsm_apply:after_mem", None, 0, 0);
 
         // PHASE 4: Update last applied index and conditionally checkpoint.
         // WAL (written in PHASE 2) is the primary crash-safety path.
@@ -1626,6 +1640,8 @@ impl StateMachine for FileStateMachine {
                 data.remove(key);
             }
         }
+        #[cfg(d_engine_verif)]
+        d_engine_core::verif::point("fsm_cleanup:after_mem", None, 0, 0);
 
         // Persist to disk after batch deletion; propagate error so caller can retry
         self.persist_data_async().await?;
